@@ -2,6 +2,8 @@
  *
  *   pol cf <dir> <spec>            master policy: creator_file answer for objects under /c20/<dir>/
  *   pol vs <oid> <uid> <spec>      master policy: valid_seteuid answer for (object, uid); `*` wildcards, `-` = ""
+ *   script <name> <op>;<op>..|-    ops run by create() of the object with that file name (`<path>` blueprint,
+ *                                  `<path>#` its clones); `-` removes the script
  *   do <oid> <op>                  run one op (see harness/mudlib/c20/body.h) in the object registered as <oid>
  *                                  (`m` = the master object), then log getuid/geteuid of every registered object
  *
@@ -25,7 +27,7 @@ static int c20_cmd (char *line)
   char copy[4096];
   char *tok[8];
   int n;
-  if (strncmp (line, "do ", 3) && strncmp (line, "pol ", 4))
+  if (strncmp (line, "do ", 3) && strncmp (line, "pol ", 4) && strncmp (line, "script ", 7))
     return 0;
   c20_init ();
   snprintf (copy, sizeof copy, "%s", line);
@@ -34,6 +36,13 @@ static int c20_cmd (char *line)
     {
       object_t *reg = vh_obj ("reg");
       if (!reg || vh_apply_str (reg, "act", 2, tok + 1, 0, 0))
+        vh_out ("r !harness");
+      return 1;
+    }
+  if (!strcmp (tok[0], "script") && n == 3)
+    {
+      object_t *reg = vh_obj ("reg");
+      if (!reg || vh_apply_str (reg, "set_script", 2, tok + 1, 0, 0))
         vh_out ("r !harness");
       return 1;
     }
